@@ -119,6 +119,13 @@ CLAIMED = {
         "Cases whose neutral point is not strictly inside a full-dimensional chromatic gamut are skipped (counted); HiGHS accuracy 1e-9.",
         "DESIGN.md section 6 C12",
     ),
+    "C18": (
+        "Hypothesis property-based testing against closed forms and an own determinant-sum volume, metamorphic relations under rigid motions / scalings / added points with a shared seed, seeded Monte-Carlo bounds for the mean width, own sum p log2(p/m) for the divergence",
+        "Generated simplices / boxes / clouds of intrinsic dimension r embedded in d = 1..5 (flat when r < d), random orthogonal maps, scalings 1e-3..1e3, gamut metric relations (scale, itself, superset, at_l1), "
+        "estimator fractional gamut in (0,1], JSD identities on vectors with zeros.",
+        "Shapes whose affine rank is a matter of tolerance (sigma_r < 1e-2 sigma_1) are skipped; width values are asserted within 6.5 standard errors.",
+        "DESIGN.md section 6 C18",
+    ),
 }
 
 PENDING_REASON = "check not built yet in this revision (planned, see DESIGN.md section 6); not claimed until its check runs quietly on the unchanged tree"
